@@ -514,6 +514,13 @@ func genC14Fault(r *Rng, d *DeclSpec, p *C14Payload) *C14Fault {
 					f.Text = e.Key + " = " + r.Pick([]string{"k:\"abc", "k:\"a\\qb\"", "k:\"x\"y"})
 					ok = true
 				}
+			} else if isMapKind(e.Kind) && strings.Contains(mapKeyKind(e.Kind), "int") && !(strings.Contains(bk, "int") || strings.Contains(bk, "float") || bk == "bool" || bk == "duration") {
+				// a key that does not convert, with a value that does
+				f.Text = e.Key + " = " + r.Pick([]string{"two", "1x", "256x"}) + ":" + r.Pick([]string{"v", "1", "true"})
+				if bk == "bool" {
+					f.Text = e.Key + " = two:true"
+				}
+				ok = true
 			} else if !isFuncKind(e.Kind) && (strings.Contains(bk, "int") || strings.Contains(bk, "float") || bk == "bool" || bk == "duration") {
 				bad := r.Pick([]string{"notanumber", "12x", "--", "1.5.2", "0x", "∞"})
 				// a well-formed number that the field's type cannot hold
